@@ -114,6 +114,10 @@ where
                 if !assume_ne(zc[0].pow([k]), SF::from(1u64), "z^|d' - d| == 1") {
                     return Verdict::Hold;
                 }
+                // ... and at z = 0, where every shifted evaluation z^(D-d) p(z) vanishes whatever d is
+                if !assume_ne(zc[0], SF::zero(), "z == 0") {
+                    return Verdict::Hold;
+                }
             }
         }
     }
